@@ -29,14 +29,15 @@ def keep (cur : Node) (next : Bool) : Trail :=
   if Sem.Node.inline cur && next && Sem.Node.trail cur != .none then .horiz else .none
 
 /-- The generator asks whether a child list is EMPTY (void elements: children and close tag are written only if there are
-    children; `@c { … }`: a block is passed only if there is one), so a list of nothing but whitespace nodes keeps one
+    children; `@c { … }`: a block is passed only if there is one), so for those a list of nothing but whitespace nodes keeps one
     (empty) whitespace node. -/
 def nonNil (orig normed : Nodes) : Nodes :=
   if normed.isNil && !orig.isNil then .cons (.ws []) .nil else normed
 
 mutual
 def node : Node → Bool → Node
-  | .element n as cs t ia ic, next => .element n (attrs as) (nonNil cs (nodes true true cs false)) (keep (.element n as cs t ia ic) next) false false
+  | .element n as cs t ia ic, next =>
+    .element n (attrs as) (if Sem.isVoid n then nonNil cs (nodes true true cs false) else nodes true true cs false) (keep (.element n as cs t ia ic) next) false false
   | .raw n as c, _ => .raw n (attrs as) c
   | .script as ps, _ => .script (attrs as) ps
   | .forE e b, next => .forE e (nodes false true b next)
